@@ -80,3 +80,25 @@ func Harness_C04_JWKMemberOrder() {
 	verifrt.Reach("transformed")
 	verifrt.Assert(err == nil && same(out, render(canonical)), "the members of a key are written in RFC 8785 order whatever the input order")
 }
+
+// Harness_C03_CanonicalInjective: the same fact for suffix data (C03: changing any part of the suffix data changes the
+// DID): two type strings given by \uXXXX escapes have equal canonical bytes only if they are the same value, and the
+// escaped and the raw spelling of one value have the same bytes (the same request denotes the same DID).
+func Harness_C03_CanonicalInjective() {
+	a, b := anyScalar("a"), anyScalar("b")
+	verifrt.Assume(a < 0x10000 && b < 0x10000 && a >= 0x20 && a != '"' && a != '\\')
+	ta := cat([]byte(`{"type":"`), hex4(uint16(a), verifrt.AnyBool("a-upper")), []byte(`"}`))
+	tb := cat([]byte(`{"type":"`), hex4(uint16(b), verifrt.AnyBool("b-upper")), []byte(`"}`))
+	raw := cat([]byte(`{"type":"`), []byte(string(a)), []byte(`"}`))
+	oa, ea := Transform(ta)
+	ob, eb := Transform(tb)
+	or, er := Transform(raw)
+	verifrt.Reach("transformed")
+	verifrt.Assert(ea == nil && eb == nil && er == nil, "escaped and raw scalar values are accepted")
+	if ea == nil && eb == nil && er == nil {
+		verifrt.Assert(same(oa, or), "the escaped and the raw spelling of a value have the same canonical bytes")
+		if a != b {
+			verifrt.Assert(!same(oa, ob), "different string values have different canonical bytes")
+		}
+	}
+}
